@@ -63,6 +63,7 @@ type Options struct {
 	Hold        bool  // bytes are readable only after Release / the auto releaser
 	AutoRelease bool  // with Hold: a seeded goroutine releases bytes in random cross-stream order
 	Seed        int64 // for AutoRelease
+	LagData     bool  // with AutoRelease: data streams lag - their bytes arrive only after the control stream (index 0) has been quiet for a while
 }
 
 // FaultSpec kills the connection when the reader of (stream index, direction)
@@ -113,6 +114,7 @@ type Pair struct {
 	flips   []FlipSpec
 	fired   bool
 	rng     *rand.Rand
+	lastCtl time.Time
 	stop    chan struct{}
 	ends    [2]*Conn
 	// statistics
@@ -226,6 +228,29 @@ func (p *Pair) releaser() {
 			pend = p.pendingLocked()
 		}
 		b := pend[p.rng.Intn(len(pend))]
+		if p.opts.LagData {
+			// control stream first; data only after a quiet period on the control stream
+			var ctl *dirBuf
+			for _, s := range p.streams {
+				if s.index != 0 || s.initiator != A {
+					continue
+				}
+				for d := 0; d < 2; d++ {
+					cb := &s.dir[d]
+					if cb.released < len(cb.data) || (cb.fin && !cb.finRel) {
+						ctl = cb
+					}
+				}
+			}
+			if ctl != nil {
+				b = ctl
+				p.lastCtl = time.Now()
+			} else if time.Since(p.lastCtl) < 15*time.Millisecond {
+				p.mu.Unlock()
+				time.Sleep(2 * time.Millisecond)
+				continue
+			}
+		}
 		if b.released < len(b.data) {
 			n := len(b.data) - b.released
 			switch p.rng.Intn(3) {
